@@ -68,7 +68,7 @@ func res(h *info.Hit) float64 {
 
 func vul(h *info.Hit) float64 {
 	vul := 1.0 + h.Defender.GetProperty(prop.AllDamageTaken)
-	vul += h.Attacker.GetProperty(prop.DamageTaken(h.DamageType))
+	vul += h.Defender.GetProperty(prop.DamageTaken(h.DamageType))
 	if vul > 3.5 {
 		vul = 3.5
 	}
